@@ -27,7 +27,6 @@ var (
 	globalC       *config
 	consoleAppDir string
 	demosAppDir   string
-	netTimeout    = time.Second * 45 // network time-out; only the verif build can change it
 )
 
 // InitConfig 初始化 Config
@@ -140,7 +139,10 @@ func DemosAppDir() (string, bool) {
 
 // NetTimeout 返回网络超时设置
 func NetTimeout() time.Duration {
-	return netTimeout
+	if d := verifNetTimeout(); d > 0 {
+		return d
+	}
+	return time.Second * 45
 }
 
 // NetHeartbeatInterval 返回网络心跳间隔
